@@ -326,6 +326,29 @@ func c12StructuredDocs(quick bool) [][]byte {
 		}
 		rec("", 0)
 	}
+	// sequences of complete attribute entries (second and later entries meet the merge paths)
+	{
+		depth := map[bool]int{true: 2, false: 3}[quick]
+		var rec func(w string, d int)
+		rec = func(w string, d int) {
+			if d > 0 {
+				add([]byte("# Title {" + w + "}"))
+				add([]byte("Title {" + w + "}\n==="))
+				add([]byte("## Title text that is long enough {" + w + "}"))
+			}
+			if d == depth {
+				return
+			}
+			for _, e := range attrEntries {
+				if d == 0 {
+					rec(e, 1)
+				} else {
+					rec(w+" "+e, d+1)
+				}
+			}
+		}
+		rec("", 0)
+	}
 	ReplDocs(map[bool]int{true: 12, false: 140}[quick], func(u, sep string, n int, doc []byte) { add(doc) })
 	for _, d := range c06Docs {
 		add([]byte(d))
